@@ -100,14 +100,14 @@ def run_C01(ctx):
         ("rel", "P3r", "S0", 4 if q else 5, pr, {}),
         ("rel", "P1", "S1", 4 if q else 6, pr, {}), ("rel", "P1", "S2", 4 if q else 6, pr, {}), ("rel", "P1", "S3", 4 if q else 6, pr, {}), ("rel", "P1", "S4", 4 if q else 6, pr, {}),
         ("rel", "P7t", "S0", 4 if q else 6, pr, {}), ("rel", "P4h", "S0", 4 if q else 6, pr, {}), ("rel", "P4d", "S0", 5 if q else 7, pr, {}), ("rel", "P4d", "S6", 5 if q else 7, pr, {}),
-        ("rel", "P2", "S9", 3 if q else 4, [], {}), ("rel", "P8f", "S10", 4 if q else 5, pr, {}), ("dbg", "P8f", "S10", 3 if q else 4, pr, {}),
+        ("rel", "P2", "S9", 3 if q else 4, [], {}), ("rel", "P8f", "S10", 4 if q else 5, pr, {}), ("dbg", "P8f", "S10", 3 if q else 4, pr, {}), ("rel", "P8g", "S11", 4 if q else 5, pr, {}), ("rel", "P8g", "S11", 3 if q else 4, pr, LAZY),
         ("dbg", "P1", "S0", 4 if q else 6, pr, {}), ("sec", "P1", "S0", 4 if q else 6, pr, {}),
         ("dbg", "P2", "S0", 3 if q else 4, pr, {}), ("sec", "P3r", "S0", 3 if q else 4, pr, {}),
     ]
     grid = [("rel", "entry", not q, {}), ("rel", "align", False, {}), ("dbg", "entry", False, {}), ("sec", "entry", False, {}),
             ("rel", "fillpage", False, {}), ("sec", "fillpage", False, {}), ("dbg", "fillpage", False, {})]
     return mixed_property(ctx, plan, grid,
-        rule="P8f from S10: a segment filled to its end with 1 MiB pages; release / re-use / collect / clock ticks at its far end (last field of the commit and purge masks). P2 from S9: a 4 GiB arena whose first block holds a live segment and whose blocks 1..63 are taken, so that new segments get arena block indices >= 64 (second bitmap field). fillpage: for every size class up to 1 KiB and seven consecutive pages of it, the page is filled to its very last block while the next slice holds the page of a larger class (first block at the start of the slice); every block is checked against all live ones. inputs: every allocation entry point (30) x boundary size grid x release variant, and the (size, alignment, offset) grid of C03, in carried-over heap states; histories: all sequences of operations of each profile alphabet (P1 page life-cycle {malloc 8K/48, fill, free(i), collect}, P2 spans {64K,100K,1M,17M,40M}, P3 small, P3r realloc, P7t threads, P4h heaps) up to depth D from start states S0..S4; node oracle: every live block's whole usable range holds its pattern, new blocks are disjoint from live ones, aligned, inside accessible memory.",
+        rule="P8g from S11: three adjacent 3 MiB pages and a 1 MiB guard block in one segment; released in any order they coalesce into one span covering whole 64-slice fields of the segment's commit and purge masks, 9 MiB are allocated over it, collected and purged (also with lazy commit). P8f from S10: a segment filled to its end with 1 MiB pages; release / re-use / collect / clock ticks at its far end (last field of the commit and purge masks). P2 from S9: a 4 GiB arena whose first block holds a live segment and whose blocks 1..63 are taken, so that new segments get arena block indices >= 64 (second bitmap field). fillpage: for every size class up to 1 KiB and seven consecutive pages of it, the page is filled to its very last block while the next slice holds the page of a larger class (first block at the start of the slice); every block is checked against all live ones. inputs: every allocation entry point (30) x boundary size grid x release variant, and the (size, alignment, offset) grid of C03, in carried-over heap states; histories: all sequences of operations of each profile alphabet (P1 page life-cycle {malloc 8K/48, fill, free(i), collect}, P2 spans {64K,100K,1M,17M,40M}, P3 small, P3r realloc, P7t threads, P4h heaps) up to depth D from start states S0..S4; node oracle: every live block's whole usable range holds its pattern, new blocks are disjoint from live ones, aligned, inside accessible memory.",
         assumptions=COMMON_ASSUME + ["free(i) is enumerated for all i while at most `free_window` blocks are live, else for the first and last window/2"])
 
 # ------------------------------------------------------------------------------------------------
@@ -307,7 +307,7 @@ def run_C07(ctx):
     if not q:
         plan += [("rel", "fault", fl, envs(SMALL, P0, {"MIMALLOC_PURGE_DECOMMITS": "0"})), ("sec", "fault", [], NOA), ("dbg", "fault", [], NOA), ("rel", "fault", [], envs(LAZY, SMALL))]
     return os_property(ctx, plan, level="fault_enumeration",
-        rule="for each of 8 workloads (small/medium churn, large, huge, over-aligned huge, threads with exit+reclaim, heaps new/delete/destroy, realloc chains, mixed) the fault-free run counts its N OS calls (mmap/munmap/mprotect/madvise through the shim); then every k < N is run with (a) a single refusal at call k and (b) persistent refusal from call k of mmap / mprotect / madvise / munmap / all kinds (thorough: also every pair k1<k2 of single refusals), under several option settings (default, lazy commit + immediate purge, arenas disabled, small arena) and builds. Oracle per case: no crash; every API result is NULL or a block that passes the full write/read/overlap oracle; live blocks keep their contents; only out-of-memory errors are reported; after the plan is lifted a recovery script allocates and frees blocks of all classes and after a forced collect nothing obtained directly from the OS remains mapped (minus ranges whose munmap the plan itself refused). distinct_nontrivial = cases in which at least one OS call was actually refused.",
+        rule="for each of 9 workloads (small/medium churn, large, huge, over-aligned huge, threads with exit+reclaim, heaps new/delete/destroy, realloc chains, mixed, 32 arena reservations of 32 MiB followed by blocks of three kinds) the fault-free run counts its N OS calls (mmap/munmap/mprotect/madvise through the shim); then every k < N is run with (a) a single refusal at call k and (b) persistent refusal from call k of mmap / mprotect / madvise / munmap / all kinds (thorough: also every pair k1<k2 of single refusals), under several option settings (default, lazy commit + immediate purge, arenas disabled, small arena) and builds. Oracle per case: no crash; every API result is NULL or a block that passes the full write/read/overlap oracle; live blocks keep their contents; only out-of-memory errors are reported; after the plan is lifted a recovery script allocates and frees blocks of all classes and after a forced collect nothing obtained directly from the OS remains mapped (minus ranges whose munmap the plan itself refused). distinct_nontrivial = cases in which at least one OS call was actually refused.",
         assumptions=COMMON_ASSUME + ["refusals are ENOMEM (mmap: MAP_FAILED) / EINVAL (munmap); madvise never answers EAGAIN (mimalloc retries EAGAIN forever by design)",
                                      "debug builds: madvise refusals are excluded (a failing decommit is an intended debug assertion)"])
 
@@ -319,13 +319,15 @@ def run_C11(ctx):
     base.insert(0, {"MIMALLOC_ALLOW_LARGE_OS_PAGES": "1"})     # the modelled OS refuses MAP_HUGETLB: ordinary pages are used and must be given back as usual
     base.append(envs({"MIMALLOC_PURGE_DELAY": "10", "MIMALLOC_PURGE_DECOMMITS": "0", "VF_RESET_ZERO": "1"}, LAZY))
     plan = [("rel", "footprint", [], e) for e in base] + [("sec", "footprint", [], {}), ("dbg", "footprint", [], {}), ("dbg", "footprint", [], {"MIMALLOC_DISALLOW_ARENA_ALLOC": "1"})]
+    # arena reservations that fail half-way (descriptor allocation refused after the region was mapped): the region must be handed back
+    plan += [("rel", "fault", ["--only-workload", "arenas"], {}), ("sec", "fault", ["--only-workload", "arenas"], {})]
     if not q:
         import itertools
         for a, d, dc, lz in itertools.product([{}, {"MIMALLOC_DISALLOW_ARENA_ALLOC": "1"}, {"MIMALLOC_ARENA_RESERVE": "64MiB"}], ["10", "0", "-1"], ["1", "0"], [{}, LAZY]):
             for v in ("rel", "dbg", "sec"):
                 plan.append((v, "footprint", [], envs(a, {"MIMALLOC_PURGE_DELAY": d, "MIMALLOC_PURGE_DECOMMITS": dc, "VF_RESET_ZERO": "1"}, lz)))
     return os_property(ctx, plan, level="model_checking", parallel=4,
-        rule="(workload staggered: 20 + 100 + 40 MiB; the 100 MiB block is released and force-collected while the lower block is live, then the next, then everything) 9 allocate-everything/free-everything workloads (small, large, huge 17/40/100/33 MiB, over-aligned huge up to 128 MiB alignment, 8 and 40 sequential threads that exit with live blocks, heaps, realloc chains, mixed) x option configurations (arenas enabled / disabled / too small, purge delay 10/0/-1, decommit or reset, eager or lazy commit) x 4 repetitions; after each repetition + mi_collect(true) the shim's mapping table is inspected: (1) no mapping outside arena areas survives except segment-map parts and arena descriptors, (2) unless purge_delay=-1 no page inside an arena is resident (mincore), (3) total mapped bytes and resident bytes do not grow from repetition r to r+1.",
+        rule="(fault runs of the workload arenas: 32 x mi_reserve_os_memory_ex(32 MiB) -- the arena descriptors outgrow the static metadata area so that later ones are one-page OS allocations -- with every OS call refused once / persistently from there on: a region that was mapped but could not be registered must be unmapped again; after recovery + free-all + forced collect nothing outside arenas may stay mapped) (workload staggered: 20 + 100 + 40 MiB; the 100 MiB block is released and force-collected while the lower block is live, then the next, then everything) 9 allocate-everything/free-everything workloads (small, large, huge 17/40/100/33 MiB, over-aligned huge up to 128 MiB alignment, 8 and 40 sequential threads that exit with live blocks, heaps, realloc chains, mixed) x option configurations (arenas enabled / disabled / too small, purge delay 10/0/-1, decommit or reset, eager or lazy commit) x 4 repetitions; after each repetition + mi_collect(true) the shim's mapping table is inspected: (1) no mapping outside arena areas survives except segment-map parts and arena descriptors, (2) unless purge_delay=-1 no page inside an arena is resident (mincore), (3) total mapped bytes and resident bytes do not grow from repetition r to r+1.",
         assumptions=COMMON_ASSUME + ["threads of the multi-threaded workloads run one after the other (deterministic schedule)", "bounded to 4 repetitions (the mapped-byte sequence is constant from repetition 1 on in every run, reported in the samples)"])
 
 def run_C18(ctx):
@@ -341,7 +343,7 @@ def run_C18(ctx):
             plan.append(("rel", "purge", [], envs(e, {"MIMALLOC_DISALLOW_ARENA_ALLOC": "1"})))
             plan.append(("rel", "purge", [], envs(e, {"MIMALLOC_ARENA_RESERVE": "64MiB"})))
     return os_property(ctx, plan, level="model_checking", parallel=8,
-        rule="scenario enumeration with the virtual clock: {what becomes unused: a 1 MiB page inside a live segment, a whole (huge) segment, everything, four huge segments (one per arena when arenas are 64 MiB: a non-forced pass purges at most two arenas and must stay armed, so three passes a delay period apart have to return all four), four non-adjacent pages of one segment, the same four pages with one of the spans taken and released again (delay+1000)/(delay-extend)+2 times before any time passes (re-use must re-arm the expiry, not accumulate it)} x {later activity: free another page of the segment, allocate in the segment, alloc+free a 40 MiB block, mi_collect(false), small fast-path traffic (negative control)} x {purge_delay -1/0/5/10} x {decommit, reset} x {arena_purge_mult 1, 10} x {arenas on, off, small}. Oracle from the shim's call log: delay 0 -> the freed range is covered by madvise/munmap before the freeing call returns; delay d>0 -> no purge of the range before the clock passes d (d*mult for whole segments) whatever happens, and after it has passed the activities that reach a purge point (page: free of another page; segment: any arena free or non-forced collect) return the range without a forced collect; delay -1 -> no purge call at all, even under mi_collect(true).",
+        rule="scenario enumeration with the virtual clock: {what becomes unused: a 1 MiB page of an abandoned segment (its owner exited with two live 1 MiB blocks, another thread frees one: a non-forced collect that visits the segment releases the page, and a second one a delay later must give it back), a 1 MiB page inside a live segment, a whole (huge) segment, everything, four huge segments (one per arena when arenas are 64 MiB: a non-forced pass purges at most two arenas and must stay armed, so three passes a delay period apart have to return all four), four non-adjacent pages of one segment, the same four pages with one of the spans taken and released again (delay+1000)/(delay-extend)+2 times before any time passes (re-use must re-arm the expiry, not accumulate it)} x {later activity: free another page of the segment, allocate in the segment, alloc+free a 40 MiB block, mi_collect(false), small fast-path traffic (negative control)} x {purge_delay -1/0/5/10} x {decommit, reset} x {arena_purge_mult 1, 10} x {arenas on, off, small}. Oracle from the shim's call log: delay 0 -> the freed range is covered by madvise/munmap before the freeing call returns; delay d>0 -> no purge of the range before the clock passes d (d*mult for whole segments) whatever happens, and after it has passed the activities that reach a purge point (page: free of another page; segment: any arena free or non-forced collect) return the range without a forced collect; delay -1 -> no purge call at all, even under mi_collect(true).",
         assumptions=COMMON_ASSUME + ["time is the shim's virtual clock", "allocating inside a segment re-arms its purge delay by design, so that activity is recorded as a control only"])
 
 # ------------------------------------------------------------------------------------------------
@@ -410,16 +412,18 @@ def run_C02(ctx):
     B = 2
     plan = [("rel", p, B, 1, {}) for p in ("H1", "H2", "H3", "H4", "H5", "D1")] + [("rel", "E5", B, 1, RF), ("rel", "E1", B, 1, RF), ("rel", "H4", B, 0, {"VF_RESET_ZERO": "1"}), ("rel", "AB1", B, 0, RF), ("rel", "AB2", B, 0, RF), ("dbg", "H4n", B, 0, {}), ("sec", "H4n", 1 if q else B, 0, {}), ("rel", "H6", B, 1, {}), ("dbg", "H6", 1 if q else B, 0, {})]
     plan += [("dbg", "H2", 1 if q else 2, 1, {}), ("sec", "H3", 1 if q else 2, 1, {})]
+    TGT = envs(RF, {"MIMALLOC_TARGET_SEGMENTS_PER_THREAD": "2"})
+    plan += [("rel", "E3c", 1 if q else 2, 0, TGT), ("dbg", "E3c", 1, 0, TGT)]
     if q: plan += [("rel", ("family", 0, 700, ), 1, 0, {})]
     else: plan += [("rel", ("family", 0, 750), 2, 1, {}), ("rel", "H2", 3, 2, {}), ("rel", "H3", 3, 2, {}), ("rel", "H1", 3, 2, {}), ("rel", "H5", 3, 2, {}), ("dbg", "H5", 2, 1, {}), ("sec", "H2", 2, 1, {})]
     race = race_jobs(ctx, [(p, {}) for p in ("H1", "H2", "H3", "H4", "H5", "D1")] + [("E5", RF), ("E1", RF), (("family", 0, 700 if q else 750), {})])
     return conc_property(ctx, conc_jobs(ctx, plan), extra_jobs=race,
-        rule=RACE_NOTE.strip() + " Programs: AB1/AB2 (an abandoned segment whose pending purge is carried out by a visiting thread -- forced collect / search for a segment that finds it unsuitable -- while another thread adopts it by reclaim-on-free and allocates in the span), H1 (remote frees into a page with free blocks vs owner malloc through fast and generic path), H2 (page in the full queue: first remote free goes to the heap's delayed list, second to the page list, vs owner collect+malloc, 3 threads), H3 (two full pages, frees racing the owner's delayed-free take-over), H4 (huge block freed remotely vs owner collect/alloc), H5 (last blocks of a full page freed remotely and locally), D1 (heap delete vs frees), E1/E5 (frees into abandoned segments with reclaim-on-free), and a generated family: every program with 2 threads x 2 ops or 3 threads x 1 op over {malloc 8K, free a, free b, collect(0), collect(1)} on two shared blocks of one full page (750 programs). All interleavings up to the preemption bound (quick 2; family 1) with up to 1 spurious weak-CAS failure. Oracle: a block leaves the live set immediately before its free call and enters it after malloc returns; every returned range must be disjoint from all live blocks; every live block's full usable range must hold its pattern after every operation of every thread; no crash, assertion or error callback.",
+        rule=RACE_NOTE.strip() + " Programs: E3c (target_segments_per_thread=2, reclaim-on-free: a thread at its segment target has a page in the full queue with a cross-thread free pending in the heap's delayed list and an empty size queue; an allocation that needs a fresh segment force-abandons that page's segment; the other thread adopts it by freeing into it; both then allocate from the class), AB1/AB2 (an abandoned segment whose pending purge is carried out by a visiting thread -- forced collect / search for a segment that finds it unsuitable -- while another thread adopts it by reclaim-on-free and allocates in the span), H1 (remote frees into a page with free blocks vs owner malloc through fast and generic path), H2 (page in the full queue: first remote free goes to the heap's delayed list, second to the page list, vs owner collect+malloc, 3 threads), H3 (two full pages, frees racing the owner's delayed-free take-over), H4 (huge block freed remotely vs owner collect/alloc), H5 (last blocks of a full page freed remotely and locally), D1 (heap delete vs frees), E1/E5 (frees into abandoned segments with reclaim-on-free), and a generated family: every program with 2 threads x 2 ops or 3 threads x 1 op over {malloc 8K, free a, free b, collect(0), collect(1)} on two shared blocks of one full page (750 programs). All interleavings up to the preemption bound (quick 2; family 1) with up to 1 spurious weak-CAS failure. Oracle: a block leaves the live set immediately before its free call and enters it after malloc returns; every returned range must be disjoint from all live blocks; every live block's full usable range must hold its pattern after every operation of every thread; no crash, assertion or error callback.",
         assumptions=COMMON_ASSUME[:2] + SCHED_ASSUME)
 
 def run_C08(ctx):
     q = ctx.quick
-    plan = [("rel", p, 2, 1, {}) for p in ("H2", "H3", "H5", "D1", "D3")] + [("rel", "PC", 2, 0, {}), ("rel", "R1", 2 if q else 3, 0, RF), ("rel", "R2", 2 if q else 3, 0, RF)] + ([] if q else [("rel", "PCs", 3, 0, {})])
+    plan = [("rel", p, 2, 1, {}) for p in ("H2", "H3", "H5", "D1", "D3")] + [("rel", "PC", 2, 0, {}), ("rel", "R1", 2 if q else 3, 0, RF), ("rel", "R2", 2 if q else 3, 0, RF), ("rel", "R3", 2 if q else 3, 0, {}), ("sec", "R3", 1 if q else 2, 0, {})] + ([] if q else [("rel", "PCs", 3, 0, {})])
     plan += [("dbg", "H2", 1 if q else 2, 1, {})]
     # frees racing with the owner's exit: nothing may be lost either (final leak check of the E programs)
     plan += [("rel", "E1", 2, 0, {}), ("rel", "E1", 2, 0, RF), ("rel", "E5", 2, 0, RF)]
@@ -427,7 +431,7 @@ def run_C08(ctx):
     else: plan += [("rel", ("family", 0, 750), 2, 1, {}), ("rel", "H2", 3, 1, {}), ("rel", "H3", 3, 2, {}), ("sec", "H3", 2, 1, {})]
     race = race_jobs(ctx, [(p, {}) for p in ("H2", "H3", "H5", "D1", "D3", "PC")] + [("R1", RF), ("R2", RF)])
     return conc_property(ctx, conc_jobs(ctx, plan), extra_jobs=race,
-        rule=RACE_NOTE.strip() + " A (nothing lost): programs H2, H3, H5, D1, D3 and the generated family (see C02): after the explored phase every remaining block is freed, the owner runs mi_heap_collect(heap, true) and then its heap must hold no page (page_count == 0 and no area with used > 0). B (no blow-up): producer/consumer PC: rounds of 8 blocks of 8 KiB (one page), the producer starts round r only after the consumer freed round r-2, six rounds, the owner never collects; the number of pages held by the owner after each round must stay <= 5 (3 pages of live/in-flight blocks + warm-up page + one retired page) in every interleaving (a stuck page per round gives >= 7).",
+        rule=RACE_NOTE.strip() + " R3: as R1 without adoption, and the page that becomes full also holds a live over-allocated aligned block (interior pointer, page flag has_aligned): the remote frees must make it usable again all the same. A (nothing lost): programs H2, H3, H5, D1, D3 and the generated family (see C02): after the explored phase every remaining block is freed, the owner runs mi_heap_collect(heap, true) and then its heap must hold no page (page_count == 0 and no area with used > 0). B (no blow-up): producer/consumer PC: rounds of 8 blocks of 8 KiB (one page), the producer starts round r only after the consumer freed round r-2, six rounds, the owner never collects; the number of pages held by the owner after each round must stay <= 5 (3 pages of live/in-flight blocks + warm-up page + one retired page) in every interleaving (a stuck page per round gives >= 7).",
         assumptions=COMMON_ASSUME[:2] + SCHED_ASSUME + ["PC sets generic_count=99 before each round so that the administrative step that mimalloc performs every 100 generic allocations happens once per round (time compression of a long run)", "the no-blow-up clause is checked for six rounds"])
 
 def run_C09(ctx):
@@ -438,11 +442,12 @@ def run_C09(ctx):
         for p in ("E1", "E4", "E5"): plan.append(("rel", p, 2, 1 if not q else 0, env))
         plan.append(("rel", "E2", 2, 0, env))
     plan += [("rel", "E3", 1 if q else 2, 0, {}), ("rel", "E3", 1 if q else 2, 0, RF), ("dbg", "E1", 1 if q else 2, 0, RF), ("dbg", "E5", 1 if q else 2, 0, RF), ("rel", "AB1", 2, 0, RF),
-             ("rel", "E6", 1 if q else 2, 0, envs(NOARENA, RF, NORECL)), ("rel", "E6", 1 if q else 2, 0, envs(RF, NORECL)), ("rel", "E6", 1, 0, envs(NOARENA, NORECL)), ("dbg", "E6", 1, 0, envs(NOARENA, RF, NORECL))]
+             ("rel", "E6", 1 if q else 2, 0, envs(NOARENA, RF, NORECL)), ("rel", "E6", 1 if q else 2, 0, envs(RF, NORECL)), ("rel", "E6", 1, 0, envs(NOARENA, NORECL)), ("dbg", "E6", 1, 0, envs(NOARENA, RF, NORECL)),
+             ("rel", "E7", 1 if q else 2, 0, {}), ("rel", "E7", 1 if q else 2, 0, NORECL), ("dbg", "E7", 1, 0, {})]
     if not q: plan += [("rel", "E1", 3, 1, RF), ("rel", "E5", 3, 1, RF), ("sec", "E1", 2, 1, RF), ("dbg", "E3", 2, 0, NOARENA), ("rel", "E3", 2, 0, ALL)]
     race = race_jobs(ctx, [(p, RF) for p in ("E1", "E2", "E3", "E4", "E5", "AB1")] + [("E1", {}), ("E2", NOARENA)])
     return conc_property(ctx, conc_jobs(ctx, plan), extra_jobs=race,
-        rule=RACE_NOTE.strip() + " E6: three segments, two of them abandoned; a free adopts the most recently abandoned one, the third thread exits, then the block in the oldest abandoned segment is freed (with segments straight from the OS this exercises unlink-last / append / lookup on the list of abandoned OS segments); nothing may stay mapped. AB1: a forced collect visits (and purges) an abandoned segment while another thread adopts it by freeing one of its blocks and allocates in its pending-purge span; programs E1 (thread exit vs remote free of one of its blocks vs an allocation that may adopt), E2 (two segments left by finished threads; two threads allocate and free into them and may both adopt), E3 (forced abandonment through mi_collect_reduce with two segments vs remote frees into both), E4 (as E1 with the allocating thread in another sub-process), E5 (two remote frees into one abandoned segment, then both freeing threads allocate) x configurations {arena segments, OS segments (arenas disabled), reclaim-on-free on/off, visit_abandoned}. Oracle: blocks of the terminated thread keep their contents and can be freed by others; anything handed out after adoption is disjoint from all live blocks (two adopters would hand out the same memory); at the end, after all blocks are freed, all threads ended and the main thread force-collected, no arena block is in use or marked abandoned, the abandoned count is 0 and no segment-sized OS mapping is left.",
+        rule=RACE_NOTE.strip() + " E7: two sub-processes (mi_subproc_new / mi_subproc_add_current_thread) with one abandoned arena segment each: a thread of the second one collects (its scan passes over the segment of the main sub-process), the last block of the second sub-process' segment is then freed by a thread of the main one, and a forced collect in the second sub-process has to find and release that segment; nothing may stay mapped. E6: three segments, two of them abandoned; a free adopts the most recently abandoned one, the third thread exits, then the block in the oldest abandoned segment is freed (with segments straight from the OS this exercises unlink-last / append / lookup on the list of abandoned OS segments); nothing may stay mapped. AB1: a forced collect visits (and purges) an abandoned segment while another thread adopts it by freeing one of its blocks and allocates in its pending-purge span; programs E1 (thread exit vs remote free of one of its blocks vs an allocation that may adopt), E2 (two segments left by finished threads; two threads allocate and free into them and may both adopt), E3 (forced abandonment through mi_collect_reduce with two segments vs remote frees into both), E4 (as E1 with the allocating thread in another sub-process), E5 (two remote frees into one abandoned segment, then both freeing threads allocate) x configurations {arena segments, OS segments (arenas disabled), reclaim-on-free on/off, visit_abandoned}. Oracle: blocks of the terminated thread keep their contents and can be freed by others; anything handed out after adoption is disjoint from all live blocks (two adopters would hand out the same memory); at the end, after all blocks are freed, all threads ended and the main thread force-collected, no arena block is in use or marked abandoned, the abandoned count is 0 and no segment-sized OS mapping is left.",
         assumptions=COMMON_ASSUME[:2] + SCHED_ASSUME + ["thread exit is the explicit mi_thread_done() call; the pthread-key destructor later finds the heap already released"])
 
 def run_C10(ctx):
@@ -539,8 +544,10 @@ def run_C15(ctx):
     plan = [("rel", "P6a", f"Sa{k}", 5 if (q and k in (2, 3)) else (4 if q else 5), pr, {}) for k in shapes]
     plan += [("dbg", "P6a", "Sa2", 4 if q else 5, pr, {}), ("sec", "P6a", "Sa23", 4 if q else 5, pr, {}), ("rel", "P6a", "Sa3", 4, [], {"MIMALLOC_ABANDONED_RECLAIM_ON_FREE": "1"}),
              ("rel", "P6a", "Sa18", 4, [], {"MIMALLOC_PURGE_DELAY": "0"})]
+    # the same shapes registered for NUMA node 1 (the process runs on node 0: the arena is only reachable through the second, foreign-node arm of the arena search)
+    plan += [("rel", "P6a", f"Sn{k}", 4 if q else 5, pr, {}) for k in ((2, 3) if q else (0, 1, 2, 3, 22, 23, 59, 41))]
     return seq_property(ctx, plan,
-        rule="the harness maps guard | canary | region | canary | guard, hands [start+delta, +size) to mi_manage_os_memory_ex for delta in {0, 4 KiB, 1 MiB, 32 MiB - 4 KiB} x size in {64, 95, 96, 100 MiB} x exclusive {0,1} x committed {0,1} (quick: 8 shapes; thorough: all 64) and explores all sequences over {heap_new_in_arena, heap_malloc(arena heap, 8K/1M/17M), malloc (default heap, same sizes), free(i), collect(1), thread_arena_alloc (a helper thread creates an arena-bound heap, allocates two blocks and exits with them live), thread_alloc (a helper thread allocates 12 blocks from its default heap, keeps the first and last, exits)} up to depth D. Node oracle: blocks of arena-bound heaps lie inside the arena; for an exclusive arena no block of any other heap intersects it (also after the same thread freed an arena page, and after adoption of abandoned segments through allocation or forced collect); an arena-bound heap returns NULL only when the arena cannot serve the request; canary pages around the given range intact and no OS call (mprotect/madvise/munmap) on memory outside the given range.",
+        rule="Sn<shape>: the region is registered for NUMA node 1 while the process runs on node 0 (exclusive and shared), so every allocation reaches it through the foreign-node arm of the arena search. The harness maps guard | canary | region | canary | guard, hands [start+delta, +size) to mi_manage_os_memory_ex for delta in {0, 4 KiB, 1 MiB, 32 MiB - 4 KiB} x size in {64, 95, 96, 100 MiB} x exclusive {0,1} x committed {0,1} (quick: 8 shapes; thorough: all 64) and explores all sequences over {heap_new_in_arena, heap_malloc(arena heap, 8K/1M/17M), malloc (default heap, same sizes), free(i), collect(1), thread_arena_alloc (a helper thread creates an arena-bound heap, allocates two blocks and exits with them live), thread_alloc (a helper thread allocates 12 blocks from its default heap, keeps the first and last, exits)} up to depth D. Node oracle: blocks of arena-bound heaps lie inside the arena; for an exclusive arena no block of any other heap intersects it (also after the same thread freed an arena page, and after adoption of abandoned segments through allocation or forced collect); an arena-bound heap returns NULL only when the arena cannot serve the request; canary pages around the given range intact and no OS call (mprotect/madvise/munmap) on memory outside the given range.",
         assumptions=COMMON_ASSUME + ["helper threads run to completion inside one operation (sequential thread exit / adoption)"])
 
 # ------------------------------------------------------------------------------------------------
